@@ -6,7 +6,7 @@
    digest x size, interned injectively to an N by the harness; the all-zero
    key is 0, i.e. content.Equal(d, ocispec.Descriptor{}) <-> dkey d = 0), its
    artifact type and the rest of its payload (annotations ..., interned). *)
-From Oras Require Import Base.Prelude.
+From Oras Require Import Base.Prelude Generated.GC14.
 
 Record desc := mkDesc { dkey : N; dart : N; dpay : N }.
 
@@ -123,3 +123,28 @@ Definition member_step (k : N) (b : bool) (c : change) : bool :=
   end.
 Definition member_after (k : N) (init : bool) (cs : list change) : bool :=
   fold_left (member_step k) cs init.
+
+(* ---- indexReferrersForPush: artifact type of the descriptor that is put into
+   the referrers index for a pushed manifest (media-type switch), and what a
+   registry with the Referrers API lists for the same manifest (distribution
+   spec: the manifest's artifactType, else for an image manifest its
+   config.mediaType).  Types are interned, 0 = "". ---- *)
+Inductive mkind := KArtifact | KImage | KIndex.
+
+Definition kind_num (k : mkind) : N :=
+  match k with KArtifact => 0 | KImage => 1 | KIndex => 2 end.
+
+(* referrer_art_table is regenerated from the switch of indexReferrersForPush:
+   (kind, "an empty artifactType falls back to config.mediaType") *)
+Fixpoint table_fallback (tbl : list (N * bool)) (k : N) : bool :=
+  match tbl with
+  | [] => false
+  | (k', fb) :: t => if k' =? k then fb else table_fallback t k
+  end.
+
+Definition referrer_art (k : mkind) (art cfg : N) : N :=
+  if (art =? 0) && table_fallback referrer_art_table (kind_num k) then cfg else art.
+
+Definition api_art (k : mkind) (art cfg : N) : N :=
+  if negb (art =? 0) then art
+  else match k with KImage => cfg | _ => 0 end.
